@@ -121,6 +121,40 @@ Proof.
            apply in_concat. exists g'. auto.
 Qed.
 
+(** the pairs (model, new tip) in the order of the insertions: for every group, the member
+    that the index holds when the group is processed (a tip of the tree, or a tip added by an
+    earlier group: chained groups) with every name of the group that the index does not hold *)
+Fixpoint anchor_pairs (idx : list string) (groups : list (list string)) : list (string * string) :=
+  match groups with
+  | [] => []
+  | g :: r =>
+    match ex_in idx g with
+    | old :: _ => map (pair old) (nw_in idx g) ++ anchor_pairs (idx ++ nw_in idx g) r
+    | [] => []
+    end
+  end.
+
+Lemma insert_groups_pairs : forall groups t idx last t',
+    wf t = true -> (forall x, In x (leaves t) -> In x idx) -> ~ In "" idx ->
+    Forall (fun g => ~ In "" g) groups ->
+    insert_groups groups t idx last = Ok t' ->
+    iseq (anchor_pairs idx groups) t t'.
+Proof.
+  induction groups as [|g rest IH]; intros t idx last t' W L Hne Hg H; simpl in H.
+  - inversion H; subst. constructor.
+  - destruct (scan_group idx g "" [] last) as [[[old news] last']|m] eqn:Es; [|discriminate].
+    destruct (String.eqb old "") eqn:Eo; [discriminate|]. apply String.eqb_neq in Eo.
+    destruct (insert_news old news t idx) as [[t1 idx1]|m] eqn:En; [|discriminate].
+    destruct (scan_group_sem idx Hne _ _ _ _ _ _ _ Es) as [A B]. simpl in A.
+    destruct B as [[_ [[_ B]|[B _]]]|[B _]]; try congruence.
+    destruct (insert_news_sem old news t idx t1 idx1 W L En) as [S1 [I1 [L1 F1]]].
+    inversion Hg as [|? ? Hg1 Hg2]; subst.
+    assert (Hne1 : ~ In "" (idx ++ nw_in idx g)).
+    { rewrite in_app_iff. intros [X|X]; auto. unfold nw_in in X. apply filter_In in X. tauto. }
+    simpl anchor_pairs. rewrite B. eapply iseq_app; [exact S1|].
+    eapply IH; eauto. eapply iseq_wf; eauto.
+Qed.
+
 (** * InsertIdenticalTips *)
 Section All.
   Variables t t' : utree.
@@ -141,6 +175,30 @@ Section All.
   Proof.
     unfold insert_identical in Hok. destruct (first_dup [] (map uname (nodes t))); [discriminate|].
     eapply insert_groups_sem; eauto.
+  Qed.
+
+  Lemma insert_identical_pairs : iseq (anchor_pairs idx groups) t t'.
+  Proof.
+    unfold insert_identical in Hok. destruct (first_dup [] (map uname (nodes t))); [discriminate|].
+    eapply insert_groups_pairs; eauto.
+  Qed.
+
+  (** chained groups included: every inserted tip is at distance zero from the member of its
+      group that was known when the group was processed *)
+  Theorem insert_identical_zero_chained w :
+    (forall e, qeqb (elen e) 0%Q = true -> (w e == 0)%Q) -> NoDup (leaves t) ->
+    forall o n d, In (o, n) (anchor_pairs idx groups) -> In (o, n, d) (pairdists w t') -> (d == 0)%Q.
+  Proof.
+    intros Hw Nl o n d Hin Hd.
+    eapply (iseq_zero_all w Hw (anchor_pairs idx groups) t t' o n d); eauto. apply insert_identical_pairs.
+  Qed.
+
+  (** exactly these tips are added, in this order *)
+  Theorem insert_identical_added :
+    NoDup (map snd (anchor_pairs idx groups)) /\
+    Permutation (leaves t') (map snd (anchor_pairs idx groups) ++ leaves t).
+  Proof.
+    split; [apply (iseq_fresh _ _ _ insert_identical_pairs)|apply iseq_leaves, insert_identical_pairs].
   Qed.
 
   Theorem insert_identical_wf : wf t' = true.
@@ -178,3 +236,16 @@ Proof.
   unfold qeqb. intros H. apply Qeq_bool_iff in H. unfold len0.
   destruct (Qle_bool 0 (elen e)); [exact H|reflexivity].
 Qed.
+
+(** non-vacuity: chained groups {b,x} then {x,y} on ((a:1,b:2):1,c:1,d:0); *)
+Definition ins_tree : utree :=
+  UNode "" [] [Some (mkE 1 nilv nilv [], UNode "" [] [None; Some (mkE 1 nilv nilv [], UNode "a" [] [None]);
+                                                       Some (mkE 2 nilv nilv [], UNode "b" [] [None])]);
+               Some (mkE 1 nilv nilv [], UNode "c" [] [None]);
+               Some (mkE 0 nilv nilv [], UNode "d" [] [None])].
+
+Lemma ins_example :
+  anchor_pairs ["a"; "b"; "c"; "d"] [["x"; "b"]; ["y"; "x"]; ["d"; "z"]] = [("b", "x"); ("x", "y"); ("d", "z")] /\
+  exists t', insert_identical ins_tree ["a"; "b"; "c"; "d"] [["x"; "b"]; ["y"; "x"]; ["d"; "z"]] = Ok t' /\
+             leaves t' = ["a"; "x"; "b"; "y"; "c"; "d"; "z"].
+Proof. split; [reflexivity|]. eexists. split; vm_compute; reflexivity. Qed.
